@@ -127,6 +127,10 @@ def _work(args):
         nodes, edges, terminals, capped = cut_graph(cfg, stream)
         return kind, cfg, label, stream, nodes, edges, [(ob, p) for ob, p in terminals.items()], capped
     count, outs = explicit_cuts(cfg, stream)
+    # cross-check of the merging argument: the cut graph must reach exactly the same outcome set
+    _, _, terminals, _ = cut_graph(cfg, stream)
+    if set(outs) != set(terminals):
+        raise RuntimeError(f"cut graph and explicit enumeration disagree on {stream!r}: {len(terminals)} vs {len(outs)} outcomes")
     return kind, cfg, label, stream, count, count, [(ob, m) for ob, m in outs.items()], False
 
 
